@@ -191,6 +191,14 @@ Theorem C17_stack_nested_transforms_once : forall (rmin : option R) (c a : @pt R
   bind (@relocate_arg ROps rmin euclid (frame_tf c a (eval_arg g))) (fun g1 => @relocate_arg ROps rmin euclid g1).
 Proof. exact stack_nested_arg. Qed.
 
+(* the radial-minimum step leaves no coordinate closer than rmin (also at the centre, where it lands at sqrt 2 * rmin) and is
+   therefore idempotent: a method whose body calls a second decorated method hands that one's function the same grid *)
+Theorem C17_radial_min_never_closer : forall (rmin : R) (p : @pt ROps), rmin <= @radius ROps (@moved_pt ROps rmin p (radius p)).
+Proof. exact moved_radius_ge_all. Qed.
+Theorem C17_stack_nested_same_argument : forall (rmin : R) (c a : @pt ROps) (g : @grid ROps),
+  @stack_arg ROps (Some rmin) c a true g = @stack_arg ROps (Some rmin) c a false g.
+Proof. exact stack_nested_same. Qed.
+
 (* ====================================================================== non-vacuity *)
 (* a 2x3 mask with a masked corner and anisotropic scales; a function returning pairs; lists; the fits hypotheses *)
 Local Close Scope R_scope.
@@ -246,3 +254,4 @@ Print Assumptions C17_radial_min_near_moved_to_rmin. Print Assumptions C17_radia
 Print Assumptions C17_radial_min_at_centre_refuted. Print Assumptions C17_relocate_grid. Print Assumptions C17_relocate_needs_config_entry.
 Print Assumptions C17_transform_applied_once. Print Assumptions C17_transform_respects_flag. Print Assumptions C17_stack_decomposes.
 Print Assumptions C17_stack_relocates_about_profile_centre. Print Assumptions C17_stack_nested_transforms_once.
+Print Assumptions C17_radial_min_never_closer. Print Assumptions C17_stack_nested_same_argument.
